@@ -14,7 +14,7 @@ use std::time::Duration;
 
 pub static PROP: Prop = Prop {
     id: "C08",
-    rule: "cases: histories of 2-14 steps, each in a fresh child process over 1-2 persistent threads: register_function / register_prefix_op / register_postfix_op / register_infix_op(name, precedence, associativity) with handlers that return List[id, operands...]; names are fresh words, re-registrations of earlier names and built-in names (min, sum, +, - prefix, ++, in, &&) - also as the very first engine call of the process; symbolic operators only as one-character extensions of existing operators; precedences from {1, 2, 19, 20, 21, 39..41, 59..61, 109..111, 119..121, 199..201, 10^9-1, 10^9} and uniform 1..=10^9 (an operator on an existing level takes that level's associativity); parse(text) and exec(text, context) steps with flat programs generated over the CURRENT operator table that use the registered names often; contexts that shadow a global function with a context function, bind the same name as a variable, or leave it unbound. Oracle: a model registry updated per step (insert semantics); parse => reference parser parameterised by the model table; exec => reference evaluator whose handlers return List[id, args...], call dispatch = context function, else global, else error. Plus pairs of operators at 999 999 999 / 10^9, 6*10^8 / 9*10^8 and around 2^29, held-initialisation scenarios in which built-ins are overridden while another thread's first use is parked mid-initialisation, and the exhaustive adjacent-precedence table: a new operator at p in {q-1, q, q+1} x {LEFT, RIGHT where allowed} on either side of each of the 11 built-in levels q. Non-trivial: a re-registration, built-in override or context shadow that is subsequently used, or an operator whose precedence differs by exactly 1 from another operator used in the same text; distinct by (step-kind sequence, relative precedence pattern).",
+    rule: "cases: histories of 2-14 steps, each in a fresh child process over 1-2 persistent threads: register_function / register_prefix_op / register_postfix_op / register_infix_op(name, precedence, associativity) with handlers that return List[id, operands...] (a quarter of the function handlers also (re-)register a function when they run - possibly the one whose call they are an argument of); names are fresh words, re-registrations of earlier names and built-in names (min, sum, +, - prefix, ++, in, &&) - also as the very first engine call of the process; symbolic operators only as one-character extensions of existing operators; precedences from {1, 2, 19, 20, 21, 39..41, 59..61, 109..111, 119..121, 199..201, 10^9-1, 10^9} and uniform 1..=10^9 (an operator on an existing level takes that level's associativity); parse(text) and exec(text, context) steps with flat programs generated over the CURRENT operator table that use the registered names often; contexts that shadow a global function with a context function, bind the same name as a variable, or leave it unbound. Oracle: a model registry updated per step (insert semantics); parse => reference parser parameterised by the model table; exec => reference evaluator whose handlers return List[id, args...], call dispatch = context function, else global, else error. Plus pairs of operators at 999 999 999 / 10^9, 6*10^8 / 9*10^8 and around 2^29, held-initialisation scenarios in which built-ins are overridden while another thread's first use is parked mid-initialisation, and the exhaustive adjacent-precedence table: a new operator at p in {q-1, q, q+1} x {LEFT, RIGHT where allowed} on either side of each of the 11 built-in levels q. Non-trivial: a re-registration, built-in override or context shadow that is subsequently used, or an operator whose precedence differs by exactly 1 from another operator used in the same text; distinct by (step-kind sequence, relative precedence pattern).",
     assumptions: &[
         "an operator registered at an existing precedence level is given that level's associativity (mixed associativity on one level is undocumented)",
         "one spelling is not registered both as postfix and as prefix/infix operator (undocumented)",
@@ -65,7 +65,18 @@ pub fn worker() -> i32 {
                 let r = guard(|| match st["op"].as_str().unwrap_or("") {
                     "reg_fn" => {
                         let id = st["id"].as_i64().unwrap_or(0);
-                        register_function(st["name"].as_str().unwrap_or(""), Arc::new(move |args| Ok(echo(id, args))));
+                        // optionally the handler itself registers a function when it runs
+                        let inner: Option<(String, i64)> = st["registers"]["name"].as_str().map(|n| (n.to_string(), st["registers"]["id"].as_i64().unwrap_or(0)));
+                        register_function(
+                            st["name"].as_str().unwrap_or(""),
+                            Arc::new(move |args| {
+                                if let Some((n, i2)) = &inner {
+                                    let i2 = *i2;
+                                    register_function(n, Arc::new(move |a| Ok(echo(i2, a))));
+                                }
+                                Ok(echo(id, args))
+                            }),
+                        );
                         "ok".to_string()
                     }
                     "reg_op" => {
@@ -119,6 +130,7 @@ struct Reg {
     prefix: BTreeMap<String, u32>,
     infix: BTreeMap<String, u32>,
     postfix: BTreeMap<String, u32>,
+    side_effects: BTreeMap<u32, (String, u32)>,
 }
 
 impl Reg {
@@ -129,6 +141,7 @@ impl Reg {
             prefix: BTreeMap::new(),
             infix: BTreeMap::new(),
             postfix: BTreeMap::new(),
+            side_effects: BTreeMap::new(),
         }
     }
     fn model(&self, ctx: &BTreeMap<String, Binding>) -> Model {
@@ -147,6 +160,7 @@ impl Reg {
             m.loggers.postfix.insert(k.clone(), (*id, V::None));
         }
         m.ctx = ctx.clone();
+        m.side_effects = self.side_effects.clone();
         m
     }
     fn apply(&mut self, st: &J) {
@@ -154,6 +168,14 @@ impl Reg {
         match st["op"].as_str().unwrap_or("") {
             "reg_fn" => {
                 self.functions.insert(st["name"].as_str().unwrap_or("").to_string(), id);
+                match st["registers"]["name"].as_str() {
+                    Some(n) => {
+                        self.side_effects.insert(id, (n.to_string(), st["registers"]["id"].as_u64().unwrap_or(0) as u32));
+                    }
+                    None => {
+                        self.side_effects.remove(&id);
+                    }
+                }
             }
             "reg_op" => {
                 let sp = &st["spec"];
@@ -191,7 +213,15 @@ fn gen_reg_step(src: &mut Src, reg: &Reg, id: u32, thread: usize) -> J {
         0 => {
             let mut pool: Vec<String> = FN_NAMES.iter().map(|s| s.to_string()).collect();
             pool.extend(reg.functions.keys().cloned());
-            json!({"op": "reg_fn", "name": src.choose(&pool), "id": id, "thread": thread})
+            let name = src.choose(&pool).clone();
+            if src.chance(1, 4) {
+                // a handler that, when it runs, (re-)registers a function - possibly the one
+                // whose call it is an argument of
+                let target = src.choose(&pool).clone();
+                json!({"op": "reg_fn", "name": name, "id": id, "thread": thread, "registers": {"name": target, "id": 3000 + id}})
+            } else {
+                json!({"op": "reg_fn", "name": name, "id": id, "thread": thread})
+            }
         }
         k => {
             let kind = ["infix", "prefix", "postfix"][k - 1];
@@ -283,12 +313,30 @@ fn run_history(threads: usize, steps: &[J], env: &Env, st: &mut Stats) -> CaseRe
                         }
                     }
                 }
+                if !reg.side_effects.is_empty() && nonname_assign(&tree) {
+                    // whether the operands of an assignment to a non-name run before the error is
+                    // not pinned; with registering handlers around, the registry is unknown from
+                    // here on, so the rest of the history asserts nothing
+                    st.exclude("history-cut:non-name-assignment-with-registering-handlers");
+                    return Ok(());
+                }
                 let mut m = reg.model(&ctx);
                 let ev = m.run(&tree);
+                for (name, (id, _)) in &m.loggers.functions {
+                    reg.functions.insert(name.clone(), *id);
+                }
                 let want = match &ev {
                     Ev::Val(v) => format!("Ok({})", v.key()),
                     Ev::Err(_) => "Err".to_string(),
-                    _ => continue,
+                    _ => {
+                        if !reg.side_effects.is_empty() {
+                            // the reference stopped at an unspecified value, the engine may have gone
+                            // on and run registering handlers: the registry is unknown from here on
+                            st.exclude("history-cut:unspecified-value-with-registering-handlers");
+                            return Ok(());
+                        }
+                        continue;
+                    }
                 };
                 if got != want {
                     return Err(Failure::new(
@@ -301,6 +349,19 @@ fn run_history(threads: usize, steps: &[J], env: &Env, st: &mut Stats) -> CaseRe
         }
     }
     Ok(())
+}
+
+fn nonname_assign(r: &crate::model::R) -> bool {
+    use crate::model::R;
+    match r {
+        R::Infix(op, l, rr) => (crate::model::is_assign(op) && !matches!(**l, R::Ref(_))) || nonname_assign(l) || nonname_assign(rr),
+        R::NotInfix(_, l, rr) => nonname_assign(l) || nonname_assign(rr),
+        R::Prefix(_, x) | R::Postfix(x, _) => nonname_assign(x),
+        R::Cond(c, a, b) => nonname_assign(c) || nonname_assign(a) || nonname_assign(b),
+        R::Call(_, a) | R::List(a) | R::Stmts(a) => a.iter().any(nonname_assign),
+        R::Map(m) => m.iter().any(|(k, v)| nonname_assign(k) || nonname_assign(v)),
+        _ => false,
+    }
 }
 
 fn gen_text(src: &mut Src, reg: &Reg, ctx_names: &[String]) -> String {
@@ -329,7 +390,7 @@ fn case(src: &mut Src, st: &mut Stats, env: &Env) -> CaseResult {
     let threads = 1 + src.weighted(&[1, 1]);
     let nsteps = 2 + src.pick(13);
     // the kind of every step first
-    let kinds: Vec<usize> = (0..nsteps).map(|i| if i == 0 { src.weighted(&[3, 1, 1]) } else { src.weighted(&[4, 4, 6, 3]) }).collect();
+    let kinds: Vec<usize> = (0..nsteps).map(|i| if i == 0 { src.weighted(&[3, 1, 1]) } else { src.weighted(&[4, 4, 6, 3, 2]) }).collect();
     let thr: Vec<usize> = (0..nsteps).map(|_| src.pick(threads)).collect();
     let mut reg = Reg::new();
     let mut steps: Vec<J> = vec![];
@@ -350,6 +411,21 @@ fn case(src: &mut Src, st: &mut Stats, env: &Env) -> CaseResult {
             1 => {
                 shape.push('p');
                 json!({"op": "parse", "text": gen_text(src, &reg, &[]), "thread": thr[i]})
+            }
+            4 => {
+                // call a function on one thread, replace it on another, call it again on the first
+                shape.push('F');
+                let a = thr[i];
+                let b = (a + 1) % threads;
+                let name = src.choose(&FN_NAMES).to_string();
+                let s1 = json!({"op": "exec", "text": format!("[ {} ( 1 ) , {} ( {} ( 2 ) ) ]", name, name, name), "ctx": {}, "thread": a});
+                let s2 = json!({"op": "reg_fn", "name": name, "id": 800 + i as u32, "thread": b});
+                reg.apply(&s1);
+                steps.push(s1.clone());
+                reg.apply(&s2);
+                steps.push(s2);
+                interesting = true;
+                s1
             }
             3 => {
                 // parse on one thread, move an operator of that text to another precedence on
@@ -447,6 +523,34 @@ fn fixed(env: &Env, st: &mut Stats) -> CaseResult {
                 steps.push(json!({"op": "exec", "text": format!("1 nw 2 nw 3"), "ctx": {}, "thread": 0}));
                 run_history(1, &steps, env, st)?;
             }
+        }
+    }
+    // a handler that runs while the arguments of a call are evaluated (re-)registers the callee:
+    // the call must reach the handler registered last
+    for (k, steps) in [
+        vec![
+            json!({"op": "reg_fn", "name": "fb", "id": 21, "thread": 0}),
+            json!({"op": "reg_fn", "name": "fa", "id": 22, "thread": 0, "registers": {"name": "fb", "id": 23}}),
+            json!({"op": "exec", "text": "fb ( fa ( 1 ) )", "ctx": {}, "thread": 0}),
+            json!({"op": "exec", "text": "fb ( 2 )", "ctx": {}, "thread": 0}),
+        ],
+        vec![
+            json!({"op": "reg_fn", "name": "fa", "id": 24, "thread": 0, "registers": {"name": "late", "id": 25}}),
+            json!({"op": "exec", "text": "late ( fa ( 1 ) )", "ctx": {}, "thread": 0}),
+        ],
+        vec![
+            json!({"op": "reg_fn", "name": "fa", "id": 26, "thread": 0, "registers": {"name": "min", "id": 27}}),
+            json!({"op": "exec", "text": "min ( fa ( 1 ) , 5 )", "ctx": {}, "thread": 0}),
+            json!({"op": "exec", "text": "min ( 3 , 4 )", "ctx": {}, "thread": 0}),
+        ],
+    ]
+    .into_iter()
+    .enumerate()
+    {
+        if env.mine(500 + k as u64) {
+            st.hist("re-entrant-registration-table");
+            st.nontrivial(&format!("reentrant:{}", k));
+            run_history(1, &steps, env, st)?;
         }
     }
     // distinct precedences near the top of the allowed range must stay distinct
